@@ -66,8 +66,9 @@ def pooled_eval(w, poolsize, spec, rng=None, script=None, step_cap=5_000_000, cu
         cube, how = engage(w, cube, poolsize)
     else:
         cube.poolsize = poolsize
-        cube.parallel = True
-        how = "flag"
+        if not getattr(cube, "parallel", False):
+            cube.parallel = True
+        how = "given"
     if aggs is None:
         aggs = cubes.build_aggs(w)
     if check_interrupt is not None:
